@@ -862,6 +862,14 @@ func (ck *checker) runCase(idx int) {
 		return
 	}
 	if dry.Res.TimedOut {
+		// a run that never returns is not a verdict by itself (wall clock). But when one of its scripts raises an error
+		// by design, what the other scripts logged before the run was stopped can still be judged by events: a script
+		// that reaches its end when run alone on the same world, and did not next to the failing one, was prevented
+		// from running (judgeScripts makes that solo confirmation). Without such a finding the case stays inconclusive.
+		if len(c.failing()) > 0 && len(dry.Res.Msgs) > 0 {
+			run.Count("timed_out_dry_runs_judged_by_their_script_messages", 1)
+			ck.judgeScripts(c, w, dry, filepath.Dir(cfgPath), true)
+		}
 		run.Inconclusive(fmt.Sprintf("case %d: dry run hit the watchdog (180 s); stderr tail: %s", idx, tail(dry.Res.Stderr, 300)))
 		return
 	}
